@@ -30,7 +30,7 @@ META = {
     "stubs": stubs.STUB_LIST,
     "assumptions": ["labels / lookups are concrete and enumerated (incl. coincidences between pipe and junction labels)",
                     "integrity part is decided by evaluation", "reals instead of doubles"],
-    "bound": {"quick": "4 structures (junction-pipe valve, remote pressure controller, circulation pump, gas) x 3 lookups x tools; "
+    "bound": {"quick": "7 structures (junction-pipe valve, remote pressure controller, circulation pump, gas, three pi valves, coinciding labels, mixed valve kinds with non-positional labels) x 3 lookups x tools; "
                        "select_subnet on 2 two-island nets; integrity over single tools and seeded pairs",
               "thorough": "+ random structures and all tool pairs"},
     "outside": ["sequences longer than 2 operations", "symbolic labels"],
